@@ -69,7 +69,7 @@ structure RecvInv {σ α : Type} (p : Profile) (scdAs : Ack.AckPacket → Ack.R 
   no_panic : r ≠ .panic
   h_eq : s'.h = s.h
   log : ∃ evs, s'.logRev = evs ++ s.logRev ∧ recvCount evs ≤ retry ∧ sendCount evs = 0 ∧
-    (∀ mc, EvsOk mc s.h.cfg.timeoutMs evs) ∧
+    (∀ mc, EvsOk mc s.h.cfg.xfer evs) ∧
     (∀ v, r = .ok v → ∃ bufLen t bytes pre, evs = .recv bufLen t (.ok bytes) :: pre ∧
       bytes.length ≤ bufLen ∧ Genuine p id kind scdAs v bytes)
 
@@ -94,25 +94,25 @@ theorem recvLoop_inv (hh : Honest dev) (p : Profile) (scdAs : Ack.AckPacket → 
     have hhon := hh s.d s.h.bufLen
     rw [hrecv] at hhon
     simp only at hhon
-    have hev1 : ∀ mc, EvsOk mc s.h.cfg.timeoutMs [.recv s.h.bufLen s.h.cfg.timeoutMs res] := by
+    have hev1 : ∀ mc, EvsOk mc s.h.cfg.xfer [.recv s.h.bufLen s.h.cfg.xfer res] := by
       intro mc e he
       simp only [List.mem_singleton] at he
       subst he
       rfl
     -- the state after logging the receive, when the loop stops with an error
     have base : ∀ (e : CErr), RecvInv p scdAs kind id (r + 1) s
-        ((({ s with d := d } : St σ)).push (.recv s.h.bufLen s.h.cfg.timeoutMs res)) (.err e) :=
-      fun e => ⟨by simp, rfl, ⟨[.recv s.h.bufLen s.h.cfg.timeoutMs res], by simp [St.push],
+        ((({ s with d := d } : St σ)).push (.recv s.h.bufLen s.h.cfg.xfer res)) (.err e) :=
+      fun e => ⟨by simp, rfl, ⟨[.recv s.h.bufLen s.h.cfg.xfer res], by simp [St.push],
         by simp [recvCount], by simp [sendCount], hev1, fun v h => by simp at h⟩⟩
     -- continuing after one more logged event list `more` (newest first, ends with the receive)
     have step : ∀ (more : List Ev) (s1 : St σ), s1.h = s.h →
-        s1.logRev = more ++ .recv s.h.bufLen s.h.cfg.timeoutMs res :: s.logRev →
-        recvCount more = 0 → sendCount more = 0 → (∀ mc, EvsOk mc s.h.cfg.timeoutMs more) →
+        s1.logRev = more ++ .recv s.h.bufLen s.h.cfg.xfer res :: s.logRev →
+        recvCount more = 0 → sendCount more = 0 → (∀ mc, EvsOk mc s.h.cfg.xfer more) →
         RecvInv p scdAs kind id (r + 1) s (recvLoop dev p scdAs kind id r s1).1
           (recvLoop dev p scdAs kind id r s1).2 := by
       intro more s1 hh1 hl1 hrc1 hsc1 hok1
       obtain ⟨h1, h2, ⟨evs, hl, hrc, hsc, hok, hg⟩⟩ := ih s1
-      refine ⟨h1, h2.trans hh1, ⟨evs ++ (more ++ [.recv s.h.bufLen s.h.cfg.timeoutMs res]), ?_, ?_,
+      refine ⟨h1, h2.trans hh1, ⟨evs ++ (more ++ [.recv s.h.bufLen s.h.cfg.xfer res]), ?_, ?_,
         ?_, ?_, ?_⟩⟩
       · rw [hl, hl1]; simp
       · rw [recvCount_append, recvCount_append, hrc1]; simp only [recvCount]; omega
@@ -122,7 +122,7 @@ theorem recvLoop_inv (hh : Honest dev) (p : Profile) (scdAs : Ack.AckPacket → 
         exact (hok mc).append ((hok1 mc).append (hev1 mc))
       · intro v hv
         obtain ⟨bl, t, bytes, pre, he, hb, hgen⟩ := hg v hv
-        exact ⟨bl, t, bytes, pre ++ (more ++ [.recv s.h.bufLen s.h.cfg.timeoutMs res]),
+        exact ⟨bl, t, bytes, pre ++ (more ++ [.recv s.h.bufLen s.h.cfg.xfer res]),
           by rw [he]; simp, hb, hgen⟩
     cases res with
     | error e =>
@@ -154,12 +154,12 @@ theorem recvLoop_inv (hh : Honest dev) (p : Profile) (scdAs : Ack.AckPacket → 
                 have hs := hscd ack
                 rcases hsa : scdAs ack with v | e | _
                 · simp only
-                  refine ⟨by simp, rfl, ⟨[.recv s.h.bufLen s.h.cfg.timeoutMs (.ok bytes)],
+                  refine ⟨by simp, rfl, ⟨[.recv s.h.bufLen s.h.cfg.xfer (.ok bytes)],
                     by simp, by simp [recvCount], by simp [sendCount], hev1, ?_⟩⟩
                   intro v' hv'
                   simp only [Res.ok.injEq] at hv'
                   subst hv'
-                  exact ⟨s.h.bufLen, s.h.cfg.timeoutMs, bytes, [], rfl, hlen, ack, hparse, hst, hid,
+                  exact ⟨s.h.bufLen, s.h.cfg.xfer, bytes, [], rfl, hlen, ack, hparse, hst, hid,
                     hk, hsa⟩
                 · simp only
                   exact base _
@@ -193,13 +193,13 @@ structure SendInv {σ α : Type} (p : Profile) (scdAs : Ack.AckPacket → Ack.R 
   abrm : s'.h.abrm = s.h.abrm
   id16 : s.h.nextReqId < 2 ^ 16 → s'.h.nextReqId < 2 ^ 16
   log : ∃ evs, s'.logRev = evs ++ s.logRev ∧ recvCount evs ≤ s.h.cfg.retry * sendCount evs ∧
-    EvsOk s.h.cfg.maxCmd s.h.cfg.timeoutMs evs
+    EvsOk s.h.cfg.maxCmd s.h.cfg.xfer evs
   one_send : ∃ evs, s'.logRev = evs ++ s.logRev ∧ sendCount evs ≤ 1 ∧ recvCount evs ≤ s.h.cfg.retry
   /-- an `Ok` result: the id advanced, and the events of the transaction are the command
   (sent successfully), then receives only, the LAST of which delivered the genuine answer. -/
   ok : ∀ v, r = .ok v → s'.h.nextReqId = (s.h.nextReqId + 1) % 2 ^ 16 ∧
     ∃ recvEvs bufLen t bytes pre,
-      s'.logRev = recvEvs ++ .send (c.serialize s.h.nextReqId) s.h.cfg.timeoutMs none :: s.logRev ∧
+      s'.logRev = recvEvs ++ .send (c.serialize s.h.nextReqId) s.h.cfg.xfer none :: s.logRev ∧
       sendCount recvEvs = 0 ∧ recvEvs = .recv bufLen t (.ok bytes) :: pre ∧ bytes.length ≤ bufLen ∧
       Genuine p s.h.nextReqId (ackKindOf c) scdAs v bytes
 
@@ -219,7 +219,7 @@ theorem sendCmd_inv (hh : Honest dev) (p : Profile) (scdAs : Ack.AckPacket → A
     rcases hsd : dev.send s.d (c.serialize s.h.nextReqId) with ⟨d, r⟩
     simp only [sendCmd, if_neg hguard, hsink, hlen, ne_eq, not_true_eq_false, if_false, hsd]
     have hsendOk : ∀ mc, c.cmdLen ≤ mc →
-        EvsOk mc s.h.cfg.timeoutMs [.send (c.serialize s.h.nextReqId) s.h.cfg.timeoutMs r] := by
+        EvsOk mc s.h.cfg.xfer [.send (c.serialize s.h.nextReqId) s.h.cfg.xfer r] := by
       intro mc hmc e he
       simp only [List.mem_singleton] at he
       subst he
@@ -230,21 +230,21 @@ theorem sendCmd_inv (hh : Honest dev) (p : Profile) (scdAs : Ack.AckPacket → A
     | some e =>
       simp only [St.push]
       exact ⟨by simp, rfl, rfl, rfl, hid16,
-        ⟨[.send (c.serialize s.h.nextReqId) s.h.cfg.timeoutMs (some e)], by simp,
+        ⟨[.send (c.serialize s.h.nextReqId) s.h.cfg.xfer (some e)], by simp,
           by simp [recvCount], hsendOk _ (by omega)⟩,
-        ⟨[.send (c.serialize s.h.nextReqId) s.h.cfg.timeoutMs (some e)], by simp,
+        ⟨[.send (c.serialize s.h.nextReqId) s.h.cfg.xfer (some e)], by simp,
           by simp [sendCount], by simp [recvCount]⟩, fun v h => by simp at h⟩
     | none =>
       simp only
       have := recvLoop_inv hh p scdAs hscd (ackKindOf c) s.h.nextReqId s.h.cfg.retry
         (⟨⟨(s.h.nextReqId + 1) % 2 ^ 16, s.h.cfg, max s.h.bufLen (max c.cmdLen c.maximumAckLen),
             s.h.opened, s.h.abrm⟩, d,
-          .send (c.serialize s.h.nextReqId) s.h.cfg.timeoutMs none :: s.logRev⟩ : St σ)
+          .send (c.serialize s.h.nextReqId) s.h.cfg.xfer none :: s.logRev⟩ : St σ)
       simp only [St.push] at this ⊢
       obtain ⟨h1, h2, ⟨evs, hl, hrc, hsc, hok, hg⟩⟩ := this
       refine ⟨h1, by rw [h2], by rw [h2], by rw [h2], fun h => by rw [h2]; exact hid16 h,
-        ⟨evs ++ [.send (c.serialize s.h.nextReqId) s.h.cfg.timeoutMs none], ?_, ?_, ?_⟩,
-        ⟨evs ++ [.send (c.serialize s.h.nextReqId) s.h.cfg.timeoutMs none], ?_, ?_, ?_⟩, ?_⟩
+        ⟨evs ++ [.send (c.serialize s.h.nextReqId) s.h.cfg.xfer none], ?_, ?_, ?_⟩,
+        ⟨evs ++ [.send (c.serialize s.h.nextReqId) s.h.cfg.xfer none], ?_, ?_, ?_⟩, ?_⟩
       · rw [hl]; simp
       · rw [recvCount_append, sendCount_append, hsc]; simp only [recvCount, sendCount]; omega
       · exact (hok _).append (hsendOk _ (by omega))
@@ -267,7 +267,7 @@ structure OpInv {σ α : Type} (s s' : St σ) (r : R α) : Prop where
   abrm : s'.h.abrm = s.h.abrm
   id16 : s.h.nextReqId < 2 ^ 16 → s'.h.nextReqId < 2 ^ 16
   log : ∃ evs, s'.logRev = evs ++ s.logRev ∧ recvCount evs ≤ s.h.cfg.retry * sendCount evs ∧
-    EvsOk s.h.cfg.maxCmd s.h.cfg.timeoutMs evs
+    EvsOk s.h.cfg.maxCmd s.h.cfg.xfer evs
 
 theorem OpInv.refl {σ α : Type} (s : St σ) (r : R α) (h : r ≠ .panic) : OpInv s s r :=
   ⟨h, rfl, rfl, rfl, id, ⟨[], by simp, by simp [recvCount], EvsOk.nil _ _⟩⟩
@@ -373,7 +373,7 @@ theorem readLoop_inv (hh : Honest dev) (p : Profile) (m address : Nat) (hm : 0 <
           obtain ⟨hidn, recvEvs, bl, t, bytes, pre, hlog1, hsc0, hre, hbl, hg⟩ :=
             hinv.ok data rfl
           refine ⟨data ++ d2, evs2 ++ (recvEvs ++ [.send ((Cmd.Cmd.readMem
-            ⟨address + offset, min m rem⟩).serialize s.h.nextReqId) s.h.cfg.timeoutMs none]),
+            ⟨address + offset, min m rem⟩).serialize s.h.nextReqId) s.h.cfg.xfer none]),
             by rw [hd2]; simp, by simp [hdl, hl2]; omega, by rw [hlog2, hlog1]; simp, ?_⟩
           simp only [GenuineRead, if_neg h0]
           have ht : (data ++ d2).take (min m rem) = data := by
@@ -479,7 +479,7 @@ theorem writeChunkLoop_inv (hh : Honest dev) (p : Profile) :
                 hinv.ok len rfl
               subst hl
               refine ⟨⟨evs2 ++ (recvEvs ++ [.send ((Cmd.Cmd.writeMem c).serialize s.h.nextReqId)
-                s.h.cfg.timeoutMs none]), by rw [hlog2, hlog1]; simp, ?_⟩, ?_⟩
+                s.h.cfg.xfer none]), by rw [hlog2, hlog1]; simp, ?_⟩, ?_⟩
               · refine ⟨_, evs2, rfl, ?_, ?_⟩
                 · rw [hre]
                   have hsp0 : sendCount pre = 0 := by
